@@ -1,5 +1,5 @@
 //@unit blobrt
-//@serves C11
+//@serves C11 C16
 //@src types/src/blob/commitment.rs
 // C11, byte level: the bytes of every sparse share written by build_sparse_share / split_blob_to_shares, read back by the
 // real accessors of types/src/share.rs and by Blob::reconstruct; the round trip is a lemma over those contracts.
@@ -197,7 +197,7 @@ impl InfoByte {
     pub fn as_u8(&self) -> (r: u8) ensures r == self.0
 //@end
 //@fn impl InfoByte :: from_raw @ types/src/share/info_byte.rs
-//@props C11
+//@props C11 C16
     pub(crate) fn from_raw(byte: u8) -> (r: Result<Self>)
         ensures r.is_ok() == (byte / 2 <= appconsts::MAX_SHARE_VERSION), r.is_ok() ==> r.unwrap().0 == byte
 //@hint entry
@@ -233,7 +233,7 @@ pub open spec fn share_space(first: bool, version: u8) -> int {
 pub struct Share { pub data: [u8; 512], pub is_parity: bool }
 impl Share {
 //@fn impl Share :: from_raw @ types/src/share.rs
-//@props C11
+//@props C11 C16
     pub fn from_raw(data: &[u8]) -> (r: Result<Self>)
         ensures
             r.is_ok() == (data@.len() == appconsts::SHARE_SIZE && ns_valid(data@.subrange(0, NS_SIZE as int)) && data@[NS_SIZE as int] / 2 <= appconsts::MAX_SHARE_VERSION),
@@ -245,19 +245,19 @@ impl Share {
     pub fn is_parity(&self) -> (r: bool) ensures r == self.is_parity
 //@end
 //@fn impl Share :: namespace @ types/src/share.rs
-//@props C11
+//@props C11 C16
     pub fn namespace(&self) -> (r: Namespace)
         ensures !self.is_parity ==> ns_bytes(r) == self.data@.subrange(0, NS_SIZE as int), self.is_parity ==> ns_reserved(r), ns_of(ns_bytes(r)) == r
 //@sub E9 "self.data[..NS_SIZE].try_into().unwrap()" => "vx_arr29(&self.data[..NS_SIZE])"
 //@sub E9 "Namespace::PARITY_SHARE" => "Namespace::parity_share()"
 //@end
 //@fn impl Share :: info_byte @ types/src/share.rs
-//@props C11
+//@props C11 C16
     pub fn info_byte(&self) -> (r: Option<InfoByte>)
         ensures r.is_some() == !self.is_parity, r.is_some() ==> r.unwrap().0 == self.data@[NS_SIZE as int]
 //@end
 //@fn impl Share :: sequence_length @ types/src/share.rs
-//@props C11
+//@props C11 C16
     pub fn sequence_length(&self) -> (r: Option<u32>)
         ensures
             r.is_some() == (!self.is_parity && self.data@[NS_SIZE as int] % 2 == 1),
@@ -266,14 +266,14 @@ impl Share {
 //@sub E9 "u32::from_be_bytes(" => "vx_u32_from_be("
 //@end
 //@fn impl Share :: signer @ types/src/share.rs
-//@props C11
+//@props C11 C16
     pub fn signer(&self) -> (r: Option<AccAddress>)
         ensures
             r.is_some() == (!self.is_parity && self.data@[NS_SIZE as int] % 2 == 1 && self.data@[NS_SIZE as int] / 2 == appconsts::SHARE_VERSION_ONE),
             r.is_some() ==> acc_bytes(r.unwrap()) == self.data@.subrange(34, 54) && acc_of(acc_bytes(r.unwrap())) == r.unwrap(),
 //@end
 //@fn impl Share :: payload @ types/src/share.rs
-//@props C11
+//@props C11 C16
     pub fn payload(&self) -> (r: Option<&[u8]>)
         ensures
             r.is_some() == !self.is_parity,
